@@ -120,6 +120,18 @@ theorem C22_snapshot_isolated_tied :
       [("nodes", true), ("files", true), ("tokens", true), ("organizations", true), ("teams", true),
        ("roles", true), ("measurementPermissions", true), ("tokenMemberships", true)] := by decide
 
+/-- **C22_restore_nil_maps_tied.** The only snapshot map `Restore` installs without building a fresh
+map is `Nodes`, and that field is NOT `omitempty`: an empty node map is persisted as `{}` and decodes
+to an empty (non-nil) map, so a restored replica can apply AddNode/UpdateNode like any other. (All other
+maps are rebuilt into fresh maps by the quarantine passes.) In the model maps are lists and
+`restore (snapshot s) = s` holds with every component empty: -/
+theorem C22_restore_nil_maps_tied :
+    Arc.Generated.C22.restoreUnguardedMaps = [("Nodes", false)] ∧
+    restore (snapshot State.empty) = State.empty ∧
+    (apply (restore (snapshot State.empty)) 1
+      (.addNode { id := "n1", name := "", role := "writer", cluster := "", address := "", api := "",
+                  state := "", version := "", wstate := "", cores := 0 })).2 = .ok := by decide
+
 /-- the length function and limit a (function, argument) check uses in the current source -/
 def lenOf (f arg : String) : Option (String × String) :=
   (Arc.Generated.C22.lengthChecks.find? (fun c => c.1 == f && c.2.1 == arg)).map (fun c => c.2.2)
